@@ -73,6 +73,14 @@ template void smf_dom<Montgomery<int32_t>>();
 CASTS = ("ImplicitCastExpr", "ParenExpr", "CStyleCastExpr", "CXXStaticCastExpr", "CXXFunctionalCastExpr", "CXXConstCastExpr",
          "ExprWithCleanups", "MaterializeTemporaryExpr", "CXXBindTemporaryExpr", "CXXReinterpretCastExpr")
 OPS = ("copy-ctor", "copy-assign", "move-ctor", "move-assign")
+# standard-library copying primitives: name -> (indices of the arguments that denote the source range, index of the destination)
+COPY_PRIMITIVES = {
+    "copy": ([0, 1], 2), "copy_n": ([0], 2), "copy_backward": ([0, 1], 2), "copy_if": ([0, 1], 2),
+    "move": ([0, 1], 2), "move_backward": ([0, 1], 2),
+    "uninitialized_copy": ([0, 1], 2), "uninitialized_copy_n": ([0], 2), "uninitialized_move": ([0, 1], 2),
+    "uninitialized_move_n": ([0], 2), "transform": ([0, 1], 2), "swap_ranges": ([0, 1], 2),
+    "memcpy": ([1], 0), "memmove": ([1], 0), "wmemcpy": ([1], 0), "strcpy": ([1], 0), "strncpy": ([1], 0),
+}
 
 
 def strip(n):
@@ -158,6 +166,36 @@ class ClassInfo:
         return None
 
 
+def accessor_member(ci, decl_id, depth=0):
+    """the data member a trivial accessor of class ci returns (begin() { return _d; }, end() { return _d + _size; }), else None"""
+    m = ci.methods.get(decl_id)
+    if m is None or depth > 2:
+        return None
+    b = body_of(m)
+    if b is None:
+        return None
+    found = []
+
+    def walk(n):
+        if n.get("kind") == "ReturnStmt" and n.get("inner"):
+            e = strip(n["inner"][0])
+            while e.get("kind") == "BinaryOperator" and e.get("opcode") in ("+", "-") and e.get("inner"):
+                e = strip(e["inner"][0])
+            tm = this_member(e)
+            if tm:
+                found.append(tm)
+            elif e.get("kind") == "CXXMemberCallExpr" and e.get("inner"):
+                c = strip(e["inner"][0])
+                if c.get("kind") == "MemberExpr" and c.get("inner") and is_this(c["inner"][0]):
+                    r = accessor_member(ci, c.get("referencedMemberDecl"), depth + 1)
+                    if r:
+                        found.append(r)
+        for c in n.get("inner", []):
+            walk(c)
+    walk(b)
+    return found[0] if found else None
+
+
 def body_of(m):
     for c in m.get("inner", []):
         if c.get("kind") == "CompoundStmt":
@@ -180,7 +218,8 @@ def analyse(ci, m, src_id, depth=0, seen=None):
                 if e.get("referencedMemberDecl") in ci.field_ids:
                     out.add(e.get("name"))
                 else:
-                    out.add("%s()" % e.get("name"))          # accessor call on the source (size(), …)
+                    am = accessor_member(ci, e.get("referencedMemberDecl"))
+                    out.add(am if am else "%s()" % e.get("name"))          # accessor call on the source (begin(), size(), …)
         if k == "DeclRefExpr" and e.get("referencedDecl", {}).get("id") in aliases:
             out |= aliases[e["referencedDecl"]["id"]]
         for c in e.get("inner", []):
@@ -196,6 +235,17 @@ def analyse(ci, m, src_id, depth=0, seen=None):
         per.setdefault(dst, set()).update(srcs)
         writes.add(dst)
         reads.update(srcs)
+
+    def this_accessor_target(e):
+        """a destination given by a trivial accessor of *this (begin(), baseptr())"""
+        e = strip(e)
+        while e.get("kind") == "BinaryOperator" and e.get("opcode") in ("+", "-") and e.get("inner"):
+            e = strip(e["inner"][0])
+        if e.get("kind") == "CXXMemberCallExpr" and e.get("inner"):
+            c = strip(e["inner"][0])
+            if c.get("kind") == "MemberExpr" and c.get("inner") and is_this(c["inner"][0]):
+                return accessor_member(ci, c.get("referencedMemberDecl"))
+        return None
 
     def local_alias_target(e):
         """a write through a local pointer initialised from a member of *this (T* baseThis = _d; baseThis[i] = …)"""
@@ -283,15 +333,18 @@ def analyse(ci, m, src_id, depth=0, seen=None):
         elif k == "CallExpr" and n.get("inner"):
             callee = strip(n["inner"][0])
             nm = callee.get("referencedDecl", {}).get("name", "") if callee.get("kind") == "DeclRefExpr" else ""
-            if "memcpy" in nm or "memmove" in nm:
-                args = n["inner"][1:]
-                if len(args) >= 2:
-                    dst = this_member(args[0])
-                    if dst:
-                        record(dst, src_members(args[1], set()))
-            elif len(n["inner"]) > 1:
+            args = n["inner"][1:]
+            prim = COPY_PRIMITIVES.get(nm.replace("__builtin_", "").lstrip("_"))
+            if prim is not None and len(args) > max(prim[0] + [prim[1]]):
+                # standard-library copying primitive: reads the source range, writes the destination range
+                dst = this_member(args[prim[1]]) or local_alias_target(args[prim[1]]) or this_accessor_target(args[prim[1]])
+                if dst:
+                    srcs = set()
+                    for i in prim[0]:
+                        src_members(args[i], srcs)
+                    record(dst, srcs)
+            elif len(args) > 1:
                 # free function writing a member passed by reference/pointer as first argument (initone(&_d[i], p._d[i]))
-                args = n["inner"][1:]
                 dst = this_member(args[0]) or local_alias_target(args[0])
                 if dst and len(args) >= 2:
                     srcs = set()
